@@ -51,10 +51,10 @@ Qed.
 
 Lemma p_snap_enc s rest : p_snap (enc_snap s ++ rest) = Some (s, rest).
 Proof.
-  destruct s as [subs keys reqs]. unfold enc_snap, p_snap. cbn [sn_subs sn_keys sn_reqs].
+  destruct s as [subs keys reqs pd]. unfold enc_snap, p_snap. cbn [sn_subs sn_keys sn_reqs sn_pdata].
   rewrite <- !app_assoc.
   rewrite (p_list_enc enc_sub3 p_datum p_sub3_enc), (p_list_enc enc_key p_key p_key_enc),
-          (p_list_enc enc_z p_z p_z_enc). reflexivity.
+          (p_list_enc enc_z p_z p_z_enc), (p_list_enc enc_z p_z p_z_enc). reflexivity.
 Qed.
 
 Lemma p_opres_enc o rest : p_opres (enc_opres o ++ rest) = Some (o, rest).
@@ -256,6 +256,7 @@ Proof.
   - apply enqueue_fresh_static.
   - apply enqueue_static.
   - intros H. apply enqueue_fresh_static in H. eapply same_static_trans; [|exact H]. static_setter.
+  - intros H. apply enqueue_fresh_static in H. eapply same_static_trans; [|exact H]. static_setter.
 Qed.
 
 Lemma tick_items_static s vars now pie : same_static s (snd (tick_items s vars now pie)).
@@ -267,7 +268,7 @@ Qed.
 Lemma sub_tick_static s vars now timer rq s' :
   sub_tick s vars now timer rq = Some s' -> same_static s s'.
 Proof.
-  unfold sub_tick, bind.
+  unfold sub_tick, sub_tick_g, bind.
   set (pre := if timer then _ else _).
   assert (Hpre : forall pie s1, pre = Some (pie, s1) -> same_static s s1).
   { subst pre. intros pie s1. destruct timer.
